@@ -15,11 +15,20 @@
     waddrmgr.Create(seed) by any sequence of the modelled operations
     (restart, unlock/lock with any passphrase, passphrase change, new scope,
     new account, imported xpub account, next addresses, extend, lookup, mark
-    used, derive from path, import key/script, getters), account creation being
-    considered only in scopes whose last-account counter is initialised
-    ([adm]; see [custom_scope_account_zero_reused] for what happens otherwise).
-    Keys are symbolic (root + derivation path): which bytes a path denotes is
-    checked on the real code by the harness' independent oracle. *)
+    used, derive from path, import private key / public key / script (P2SH,
+    witness, taproot; secret or public), change of the private or the public
+    passphrase, getters), account creation being considered only in scopes
+    whose last-account counter is initialised ([adm]; see
+    [custom_scope_account_zero_reused] for what happens otherwise).
+    Keys are symbolic (root + derivation path): a name denotes the key the
+    SPECIFICATION assigns to the path (rule of every hardened step:
+    [Keys.spec_rule]); the model tracks how hdkeychain holds every parent key
+    and leaves the key tree as soon as a hardened step is made with another
+    rule ([Keys.ckd], worst case [all_lz]), so "the address encodes the key
+    named by its path" includes "every hardened step on the way followed the
+    specified rule" - [C03_rule_*] state this per step, for every assignment of
+    leading zero bytes.  Which bytes a path denotes is checked on the real
+    code by the harness' independent oracle (harness/internal/hdoracle). *)
 From Verif Require Import Base.Prelude Addr.Keys Addr.Mgr Addr.MgrProofs Generated.AddrFacts.
 Local Open Scope N_scope.
 
@@ -109,16 +118,90 @@ Theorem C03_derive_from_path : forall seed pass st s p st' r row sch,
 Proof. rewrite source_fact. exact (derive_correct sl cg). Qed.
 Print Assumptions C03_derive_from_path.
 
-(** A wallet re-created from the same seed has the same key for every
-    seed-derived account, hence (by the theorems above) issues the same
-    addresses. *)
-Theorem C03_recreated_wallet_same_keys : forall seed pass1 pass2 st1 st2 s a row1 row2,
+(** Two wallets created independently from the same seed (any passphrases, any
+    histories): every seed-derived account they both have holds the key the
+    specification assigns to m/purpose'/coin'/account' (a function of seed and
+    path alone), and where the scope has the same address schema in both - the
+    schema is an input: a constant of Create for the default scopes, the
+    argument of NewScopedKeyManager otherwise - the address of every branch and
+    index is the same in both.  With [C03_next_addresses] (indices are issued
+    0, 1, 2, ... on every branch): the re-created wallet issues the same
+    addresses in the same order. *)
+Theorem C03_recreated_wallet_same_addresses : forall seed pass1 pass2 st1 st2 s a row1 row2 sch b i,
   reach sl cg seed pass1 st1 -> reach sl cg seed pass2 st2 ->
-  aget sa_dec (d_accts (st_disk st1)) (s, a) = Some row1 -> aget sa_dec (d_accts (st_disk st2)) (s, a) = Some row2 ->
+  acct_of st1 s a row1 sch -> acct_of st2 s a row2 sch ->
   ar_kind row1 = ADefault -> ar_kind row2 = ADefault ->
-  ar_pub row1 = ar_pub row2 /\ row_fmt (mkSchema P2PKH P2PKH) row1 = row_fmt (mkSchema P2PKH P2PKH) row2.
-Proof. exact (same_seed_same_keys sl cg sl cg). Qed.
-Print Assumptions C03_recreated_wallet_same_keys.
+  ar_pub row1 = acct_key seed (fst s) (snd s) a /\ ar_pub row2 = acct_key seed (fst s) (snd s) a /\
+  chain_addr sch row1 b i = chain_addr sch row2 b i.
+Proof. exact (same_seed_same_addresses sl cg sl cg). Qed.
+Print Assumptions C03_recreated_wallet_same_addresses.
+
+(** The rule of every hardened step, for EVERY assignment [lz] of leading zero
+    bytes to private keys: DeriveNonStandard on the parent as the wallet holds
+    it (full width when it comes from NewMaster or was read back from the
+    database, shortened when it is the result of the step before) IS the rule
+    the specification demands at that step, hence yields the specified child. *)
+Theorem C03_rule_purpose_step : forall lz seed pu,
+  spec_rule (master seed) (pu + hardened_start) = Std /\
+  ckd lz (rule_of_width Full) (master seed) (pu + hardened_start) = child (master seed) pu true.
+Proof. exact rule_purpose_step. Qed.
+Print Assumptions C03_rule_purpose_step.
+
+Theorem C03_rule_coin_step : forall lz seed pu co,
+  spec_rule (child (master seed) pu true) (co + hardened_start) = Leg /\
+  ckd lz (rule_of_width Short) (child (master seed) pu true) (co + hardened_start) = coin_key seed pu co.
+Proof. exact rule_coin_step. Qed.
+Print Assumptions C03_rule_coin_step.
+
+Theorem C03_rule_account0_step : forall lz seed pu co,
+  spec_rule (coin_key seed pu co) (0 + hardened_start) = Leg /\
+  ckd lz (rule_of_width Short) (coin_key seed pu co) (0 + hardened_start) = acct_key seed pu co 0.
+Proof. exact rule_account0_step. Qed.
+Print Assumptions C03_rule_account0_step.
+
+Theorem C03_rule_later_account_step : forall lz seed pu co a,
+  a <> 0 ->
+  spec_rule (coin_key seed pu co) (a + hardened_start) = Std /\
+  ckd lz (rule_of_width Full) (coin_key seed pu co) (a + hardened_start) = acct_key seed pu co a.
+Proof. exact rule_later_account_step. Qed.
+Print Assumptions C03_rule_later_account_step.
+
+Theorem C03_rule_branch_step : forall lz seed pu co a b,
+  spec_rule (acct_key seed pu co a) b = Std /\
+  ckd lz (rule_of_width Full) (acct_key seed pu co a) b = raw_child (acct_key seed pu co a) b.
+Proof. exact rule_branch_step. Qed.
+Print Assumptions C03_rule_branch_step.
+
+Theorem C03_rule_index_step : forall lz seed pu co a b i,
+  spec_rule (raw_child (acct_key seed pu co a) b) i = Leg /\
+  ckd lz (rule_of_width Short) (raw_child (acct_key seed pu co a) b) i = raw_child (raw_child (acct_key seed pu co a) b) i.
+Proof. exact rule_index_step. Qed.
+Print Assumptions C03_rule_index_step.
+
+(** ... and the rule matters: below a private key with a leading zero byte a
+    hardened step made at the other width yields another key. *)
+Theorem C03_other_rule_other_key : forall lz w k i,
+  is_hardened i = true -> lz k = true -> rule_of_width w <> spec_rule k i -> ckd lz (rule_of_width w) k i <> raw_child k i.
+Proof. exact other_rule_other_key. Qed.
+Print Assumptions C03_other_rule_other_key.
+
+(** The model of createManagerKeyScope (three steps from the root key, each on
+    the result of the one before) stores exactly the specified coin-type and
+    account-0 keys ... *)
+Theorem C03_create_scope_keys : forall seed pu co,
+  let coin := hard_child (hard_child (XPriv (master seed) Full) pu) co in
+  coin = XPriv (coin_key seed pu co) Short /\ hard_child coin 0 = XPriv (acct_key seed pu co 0) Short.
+Proof. exact create_scope_keys. Qed.
+Print Assumptions C03_create_scope_keys.
+
+(** ... in the model's worst case, a derivation names the child iff it is
+    unhardened or made with the specified rule, and then it names it for every
+    assignment of leading zeros. *)
+Theorem C03_on_spec_iff_rule : forall r k i,
+  (ckd all_lz r k i = raw_child k i <-> (is_hardened i = false \/ r = spec_rule k i)) /\
+  (ckd all_lz r k i = raw_child k i -> forall lz, ckd lz r k i = raw_child k i).
+Proof. intros r k i. split; [exact (ckd_all_lz_iff r k i)|exact (ckd_all_lz r k i)]. Qed.
+Print Assumptions C03_on_spec_iff_rule.
 
 (** A private key that is returned is the key of the returned public key. *)
 Theorem C03_private_key_never_wrong : forall seed pass st o st' rs i k,
@@ -137,19 +220,32 @@ Print Assumptions C03_imported_key_unchanged.
 
 Theorem C03_imported_key_later : forall seed pass st ad st' i,
   reach sl cg seed pass st -> step current st (OLookup ad) = (st', OutAddrs [RKey i]) -> r_imported i = true ->
-  exists k, r_pub i = Pub (imp_key k) /\ addr_key (AKey (r_fmt i) (Pub (imp_key k))) = addr_key ad /\
-            (m_locked (st_mem st) = false -> r_priv i = POk (Priv (imp_key k))).
+  exists k po, r_pub i = Pub (imp_name po k) /\ addr_key (AKey (r_fmt i) (Pub (imp_name po k))) = addr_key ad /\
+            (m_locked (st_mem st) = false -> r_priv i = if po then PErr EWatching else POk (Priv (imp_key k))).
 Proof. rewrite source_fact. exact (imported_key_later sl cg). Qed.
 Print Assumptions C03_imported_key_later.
 
-Theorem C03_imported_script_unchanged : forall seed pass st s sc st' rs h oid sa,
+(** ImportPublicKey (the scope's external format; needs no unlocked manager):
+    the public key is returned unchanged and no private key is ever returned. *)
+Theorem C03_imported_public_key_unchanged : forall seed pass st s k st' rs,
+  reach sl cg seed pass st -> step current st (OImportPub s k) = (st', OutAddrs rs) ->
+  exists i sch, rs = [RKey i] /\ r_imported i = true /\ r_pub i = Pub (imp_pub_key k) /\
+                aget scope_eq_dec (m_scopes (st_mem st)) s = Some sch /\ r_fmt i = ext_fmt sch /\
+                r_priv i = PErr (if m_locked (st_mem st) then ELocked else EWatching).
+Proof. rewrite source_fact. exact (imported_pub_unchanged sl cg). Qed.
+Print Assumptions C03_imported_public_key_unchanged.
+
+(** Scripts (P2SH, witness, taproot; secret or public): returned unchanged at
+    import; later, whenever the manager is unlocked, and at any time for a
+    script imported as public. *)
+Theorem C03_imported_script_unchanged : forall seed pass st s sc secret st' rs h oid sa,
   reach sl cg seed pass st ->
-  (step current st (OImportScript s sc) = (st', OutAddrs rs) -> rs = [RScr s sc (SOk sc)]) /\
+  (step current st (OImportScript s sc secret) = (st', OutAddrs rs) -> rs = [RScr s sc (SOk sc)]) /\
   (nth_error (m_handles (st_mem st)) h = Some oid -> nth_error (m_heap (st_mem st)) oid = Some (MScript sa) ->
-   m_locked (st_mem st) = false -> snd (step current st (OScript h)) = OutScript (sa_script sa)).
+   (m_locked (st_mem st) = false \/ sa_secret sa = false) -> snd (step current st (OScript h)) = OutScript (sa_script sa)).
 Proof.
-  rewrite source_fact. intros seed pass st s sc st' rs h oid sa R. split.
-  - exact (imported_script_unchanged sl cg seed pass st s sc st' rs R).
+  rewrite source_fact. intros seed pass st s sc secret st' rs h oid sa R. split.
+  - exact (imported_script_unchanged sl cg seed pass st s sc secret st' rs R).
   - exact (script_later sl cg seed pass st h oid sa R).
 Qed.
 Print Assumptions C03_imported_script_unchanged.
@@ -195,16 +291,15 @@ Example custom_scope_account_zero_reused :
   nth 5 (snd (run (mkFacts true true false) (init 7 1) h)) OutOk = OutProps 2 0.
 Proof. vm_compute. repeat split. Qed.
 
-(** Observation (DESIGN S14): the address objects made by extendAddresses report
-    MasterKeyFingerprint 0 instead of the imported account's fingerprint; the
-    path proper (account, branch, index) is the true one.  After a restart the
-    fingerprint is reported. *)
-Example extend_reports_no_fingerprint :
+(** DESIGN S14 (repaired in the source): the address objects made by
+    extendAddresses report the account row's MasterKeyFingerprint, like the ones
+    made by nextAddresses and the ones reloaded after a restart. *)
+Example extend_reports_fingerprint :
   let a1 := AKey P2WKH (Pub (addr_skey (xpub_key 3 2147483651) 0 1)) in
   let h := [OImportXpub (84, 0) 11 3 2147483651 77 None; OExtend (84, 0) 1 false 1; OLookup a1; OOpen; OLookup a1] in
   exists i j, nth 2 (snd (run (mkFacts true false false) (init 7 1) h)) OutOk = OutAddrs [RKey i] /\
               nth 4 (snd (run (mkFacts true false false) (init 7 1) h)) OutOk = OutAddrs [RKey j] /\
-              r_path i = mkPath 1 2147483651 0 1 0 /\ r_path j = mkPath 1 2147483651 0 1 77.
+              r_path i = mkPath 1 2147483651 0 1 77 /\ r_path j = mkPath 1 2147483651 0 1 77.
 Proof. do 2 eexists. vm_compute. repeat split. Qed.
 
 (** Non-vacuity: a history through every kind of operation is admissible and
@@ -214,24 +309,52 @@ Example C03_nonvacuous :
   let h := [ONext (84, 0) 0 false 2; ONext (49, 0) 0 true 1; OUnlock 1; ONewAccount (44, 0) 11;
             OImportXpub (86, 0) 12 5 2147483649 9 (Some (mkSchema NP2WKH NP2WKH)); ONext (86, 0) 1 false 1;
             ONewScope (1017, 0) (mkSchema P2TR P2PKH); OExtend (44, 0) 1 true 3; OImportKey (84, 0) 4;
-            OImportScript (44, 0) 6; OChangePass 1 2; OLock; ODerive (84, 0) (mkPath 0 2147483648 1 5 0);
+            OImportScript (44, 0) 6 true; OImportScript (84, 0) 9 false; OImportPub (86, 0) 3; OChangePubPass 0 5;
+            OChangePass 1 2; OLock; ODerive (84, 0) (mkPath 0 2147483648 1 5 0);
             OMarkUsed (AKey P2WKH (Pub (addr_skey (acct_key 7 84 0 0) 0 1))); OOpen; OUnlock 2;
             OLookup (AKey P2WKH (Pub (addr_skey (acct_key 7 84 0 0) 0 1))); OPriv 0; ODeriveCache (84, 0) (mkPath 0 2147483648 0 1 0)] in
   run_adm (mkFacts true false false) (init 7 1) h = true /\
-  nth 17 (snd (run (mkFacts true false false) (init 7 1) h)) OutOk = OutKey (Priv (addr_skey (acct_key 7 84 0 0) 0 1)).
+  nth 20 (snd (run (mkFacts true false false) (init 7 1) h)) OutOk = OutKey (Priv (addr_skey (acct_key 7 84 0 0) 0 1)).
 Proof. vm_compute. split; reflexivity. Qed.
 
+
+(** The rest of the alphabet, on the model: a public key imported while locked
+    (no private key, before and after a restart), a public witness script
+    readable while locked and a secret one refused, a count of zero (the commit
+    hook of the code indexes the last of zero addresses: a crash, modelled as
+    [EPanic]), counts beyond MaxAddressesPerAccount refused, a hardened
+    branch/index request refused while locked (public derivation) and answered
+    with the specified hardened children while unlocked, the public passphrase
+    changed (wrong old one refused). *)
+Example C03_alphabet_nonvacuous :
+  let h := [OImportPub (44, 0) 3; OImportScript (84, 0) 9 false; OScript 1; OImportScript (84, 0) 10 true;
+            ONext (84, 0) 0 false 0; ONext (84, 0) 0 false 2147483648; OExtend (84, 0) 0 true 2147483648;
+            ODerive (84, 0) (mkPath 0 2147483648 2147483648 1 0); OUnlock 1;
+            ODerive (84, 0) (mkPath 0 2147483648 2147483648 2147483649 0); OChangePubPass 3 4; OChangePubPass 0 4; OOpen;
+            OLookup (AKey P2PKH (Pub (imp_pub_key 3))); OUnlock 1; OPriv 0] in
+  let outs := snd (run (mkFacts true true true) (init 7 1) h) in
+  run_adm (mkFacts true true true) (init 7 1) h = true /\
+  firstn 7 (skipn 1 outs) = [OutAddrs [RScr (84, 0) 9 (SOk 9)]; OutScript 9; OutErr ELocked; OutErr EPanic; OutErr ETooMany;
+                             OutErr ETooMany; OutErr EKeyChain] /\
+  (exists i, nth 9 outs OutOk = OutAddrs [RKey i] /\
+             r_pub i = Pub (child (child (acct_key 7 84 0 0) 0 true) 1 true) /\
+             r_priv i = POk (Priv (child (child (acct_key 7 84 0 0) 0 true) 1 true))) /\
+  firstn 2 (skipn 10 outs) = [OutErr EWrongPass; OutOk] /\
+  (exists i, nth 13 outs OutOk = OutAddrs [RKey i] /\ r_pub i = Pub (imp_pub_key 3) /\ r_priv i = PErr ELocked) /\
+  nth 15 outs OutOk = OutErr EWatching.
+Proof. vm_compute. repeat split; try reflexivity; eexists; repeat split. Qed.
 
 (** Whenever the manager is unlocked, PrivKey() of ANY address object the
     caller holds - just issued, looked up later, created while locked and
     unlocked afterwards, extended, reloaded after a restart - that belongs to an
-    account with a private key, or is an imported key, returns exactly the
-    private key of the object's public key. *)
+    account with a private key, or is a key imported WITH its private key
+    (WIF), returns exactly the private key of the object's public key. *)
 Theorem C03_private_key_available : forall seed pass st h ma,
   reach sl cg seed pass st -> handle_obj st h ma -> m_locked (st_mem st) = false ->
   (ma_imported ma = false ->
    exists row, aget sa_dec (d_accts (st_disk st)) (ma_scope ma, dp_iacct (ma_path ma)) = Some row /\
                ar_priv row <> None) ->
+  (ma_imported ma = true -> exists k, ma_pub ma = Pub (imp_key k)) ->
   snd (step current st (OPriv h)) = OutKey (Priv (skey_of_pub (ma_pub ma))).
 Proof. rewrite source_fact. exact (priv_key_available sl cg). Qed.
 Print Assumptions C03_private_key_available.
@@ -239,7 +362,7 @@ Print Assumptions C03_private_key_available.
 (** ... and every such object is what the address theorems say: *)
 Theorem C03_held_address_is_account_child : forall seed pass st h ma,
   reach sl cg seed pass st -> handle_obj st h ma ->
-  if ma_imported ma then exists k, ma_pub ma = Pub (imp_key k)
+  if ma_imported ma then (exists k, ma_pub ma = Pub (imp_key k)) \/ (exists k, ma_pub ma = Pub (imp_pub_key k))
   else exists row sch, acct_of st (ma_scope ma) (dp_iacct (ma_path ma)) row sch /\
          ma_pub ma = Pub (path_skey (ar_pub row) (dp_branch (ma_path ma)) (dp_index (ma_path ma))) /\
          ma_fmt ma = row_fmt sch row (dp_branch (ma_path ma)).
